@@ -54,6 +54,7 @@ type Ledger struct {
 	Broken   []string // checker-broken conditions (controls that did not fire)
 	Counts   map[string]int
 	seen     map[string]int
+	waived   map[string]string
 }
 
 func NewLedger(prop, tier string, seed int64) *Ledger {
@@ -229,7 +230,29 @@ func (l *Ledger) Open() bool {
 }
 
 func (l *Ledger) Floor(rule string, min int, why string) {
+	if l.waived[rule] != "" {
+		return
+	}
 	l.Floors = append(l.Floors, Floor{rule, min, why})
+}
+
+// Waive declares that a rule cannot decide anything on this tree for a stated structural reason
+// (e.g. the table it evaluates is no longer a literal but is built by a function): its floor is
+// dropped and the reason is recorded among the notes. The clause is then *not decided*; this is
+// reserved for constructs the engine cannot evaluate, never for constructs that are absent.
+func (l *Ledger) Waive(rule, why string) {
+	if l.waived == nil {
+		l.waived = map[string]string{}
+	}
+	l.waived[rule] = why
+	var fs []Floor
+	for _, f := range l.Floors {
+		if f.Rule != rule {
+			fs = append(fs, f)
+		}
+	}
+	l.Floors = fs
+	l.Note("rule %s not decided on this tree: %s", rule, why)
 }
 
 func (l *Ledger) Note(format string, a ...interface{}) {
